@@ -564,6 +564,75 @@ def rule_SB15(rep, prog):
         rep.unknown(rid, "fewer than 3 obligations found (%d)" % n)
 
 
+def rule_SB16(rep, prog):
+    rid = rep.rule("C11-SB16", "`now` start times: dispatch_source_set_timer resolves a start of `now` on ANY clock to a reading of that clock - the test that triggers the "
+                   "clock reading is made on the value DECODED by _dispatch_time_to_clock_and_value (0 on every clock), not on the raw dispatch_time_t (whose `now` "
+                   "encodings differ per clock)", floor=2)
+    fn = prog.fn("_dispatch_timer_config_create")
+    rep.saw(fn)
+    dec = calls_named(fn, "_dispatch_time_to_clock_and_value")
+    if not dec:
+        rep.unknown(rid, "_dispatch_timer_config_create: decoding of the start time not found")
+        return
+    vslot = root_ptr(fn, dec[0].ops[2])
+    reads = [c for c in fn.all_insts() if c.op == "call" and c.callee in ("_dispatch_uptime", "_dispatch_monotonic_time", "_dispatch_get_nanoseconds", "_dispatch_time_now")]
+    if len(reads) < 2:
+        rep.unknown(rid, "_dispatch_timer_config_create: fewer than 2 clock readings for a `now` start found (%d)" % len(reads))
+        return
+    for c in reads:
+        dx = paths.dom_ctx(fn, c)
+        ok = False
+        raw = None
+        for iid, tv in dx.truth.items():
+            t = fn.insts[iid]
+            if t.op != "icmp" or t.d["pred"] not in ("eq", "ne") or tv != (t.d["pred"] == "eq"):
+                continue
+            for a, b in ((t.ops[0], t.ops[1]), (t.ops[1], t.ops[0])):
+                if b[0] == "c" and b[1] == 0:
+                    l = fn.inst(a)
+                    if l is not None and l.op == "load" and root_ptr(fn, l.d["ptr"]["base"]) == vslot and fn.inst_reaches(dec[0], l):
+                        ok = True
+                    elif tuple(a[:2]) == ("a", 0):
+                        raw = t
+        rep.require(rid, ok, c.loc, fn.name, "now-test-not-on-decoded-value:%s" % c.callee,
+                    "_dispatch_timer_config_create reads the clock (%s) for a `now` start without having tested the DECODED start value against 0%s: "
+                    "DISPATCH_MONOTONICTIME_NOW / DISPATCH_WALLTIME_NOW decode to 0 on their clocks but are not 0 as raw values, so such a timer is configured with "
+                    "target 0 (boot / the epoch) - its first fire reports every interval since then and the schedule is aligned to the wrong origin"
+                    % (c.callee, " (the raw start argument is tested instead)" if raw is not None else ""), sample={"read": c.loc})
+
+
+def rule_AI17(rep, prog):
+    from .C13 import linform
+    rid = rep.rule("C11-AI17", "fire counts are accumulated once: _dispatch_timer_unote_compute_missed(dt, now, prev) returns prev + the missed intervals, and no caller adds "
+                   "the count it passed in (or anything else) to that result again", floor=3)
+    cm = prog.fn("_dispatch_timer_unote_compute_missed")
+    rep.saw(cm)
+    rets = [i for i in cm.all_insts() if i.op == "ret" and i.ops]
+    ok = bool(rets) and all(linform(cm, r.ops[0]).get(("a", 2)) == 1 for r in rets)
+    rep.require(rid, ok, (rets[0].loc if rets else "?"), cm.name, "compute-missed-drops-prev",
+                "_dispatch_timer_unote_compute_missed does not return prev + missed: fires counted before the timer was disarmed are lost (or counted twice)")
+    n = 0
+    for fn in prog.all_functions():
+        for c in calls_named(fn, cm.name):
+            n += 1
+            rep.saw(fn)
+            bad = None
+            for u in fn.all_insts():
+                if c.ops[2][0] == "c" and c.ops[2][1] == 0:
+                    break  # nothing was passed in: the caller may do its own accumulation
+                if u.op not in ("add", "sub"):
+                    continue
+                lf = linform(fn, u if False else ("i", u.id))
+                if lf.get(("i", c.id)) and any(k_ != ("i", c.id) and k_ != 1 and v for k_, v in lf.items()):
+                    bad = u
+            rep.require(rid, bad is None, (bad.loc if bad is not None else c.loc), fn.name, "missed-count-added-again:%s" % fn.name,
+                        "%s adds another count to the result of _dispatch_timer_unote_compute_missed, which already contains the count passed to it: fires that the "
+                        "manager recorded before disarming the timer are reported twice - the handler sees more fires than interval boundaries have passed" % fn.name,
+                        sample={"call": c.loc})
+    if n < 2:
+        rep.unknown(rid, "fewer than 2 callers of _dispatch_timer_unote_compute_missed found (%d)" % n)
+
+
 def rule_TB10(rep, prog):
     rid = rep.rule("C11-TB10", "the kernel timer's bookkeeping mirrors the epoll operation just performed: after epoll_ctl(op) on a timerfd both det_registered and "
                    "det_armed are set, unconditionally, to (op != EPOLL_CTL_DEL); the next arm then chooses ADD / MOD correctly", floor=2)
@@ -649,10 +718,14 @@ def run(rep, tier="quick", srcdir=None, only=None):
         rule_TB14(rep, prog)
     if want("C11-SB15"):
         rule_SB15(rep, prog)
+    if want("C11-SB16"):
+        rule_SB16(rep, prog)
+    if want("C11-AI17"):
+        rule_AI17(rep, prog)
 
 
 MANIFEST = {
-    "technique": "dominance / control-dependence rules with value identity, switch-table agreement across units, must-pass rules (LLVM IR) + concrete evaluation of the timer clock re-configuration over every (old clock, new clock) pair",
+    "technique": "dominance / control-dependence rules with value identity, switch-table agreement across units, must-pass rules (LLVM IR) + concrete evaluation of the timer clock re-configuration over every (old clock, new clock) pair + linear-form rule on the missed-count accumulation, decoded-value test rule for `now` starts",
     "level": "necessary conditions only: due-test dominance of every delivery (never early), guarded missed-count arithmetic, per-clock agreement between the "
              "kernel timer and the clock reader, unconditional discard of stale pending data on reconfiguration, and local comparison discipline of the heap "
              "re-sift; 'every armed timer eventually fires for every heap population' needs an inductive heap invariant and is NOT decided",
